@@ -53,7 +53,7 @@ def run_property(prop, tier, hs, seed, jobs=6, mem=50, keep=False):
     overlays = {}
     for kind in sorted(set(h.overlay for h in kani_hs)):
         t = time.time()
-        overlays[kind] = X.Overlay(kind, scratch)
+        overlays[kind] = X.Overlay(kind, scratch, modules=set(h.module for h in kani_hs if h.overlay == kind))
         X.log("[%s] overlay %s built from %s (%s) in %.1fs" % (prop, kind, X.REPO, X.repo_fingerprint(), time.time() - t))
 
     slots = {}
